@@ -1,7 +1,306 @@
-"""Liveness audit (thorough tier): placeholder until mutation operators are registered."""
+"""Liveness audit (thorough tier).
+
+1. Seeded variants: every confirmed breaking change kept under /verif/seeded/<id>/ whose
+   meta names this property must be reported as a violation when its patch is applied to
+   an in-memory copy of the current tree (patches that no longer apply are skipped and
+   listed).  A seeded variant that is not caught makes the run analysis-broken.
+2. Mutation adequacy: generic AST mutation operators (comparison strictness/polarity,
+   `+=`→`=`, arithmetic operator swap, numeric constant shift, keyword-argument drop,
+   positional-argument swap, `is None`→truthiness, statement deletion) are applied one at a
+   time, in memory, to the functions the check analysed; the check is re-run on each mutant
+   model.  The kill ratio and the surviving mutants are recorded in the evidence.  Nothing is
+   executed and no file of /repo is written.
+"""
+
+from __future__ import annotations
+
+import ast
+import copy
+import glob
+import json
+import os
+import subprocess
+import tempfile
+from concurrent.futures import ProcessPoolExecutor
+
+from .core import VERIF
+from .model import AnalysisError, Model
+
+MAX_MUTANTS = int(os.environ.get("DROPSTAT_MAX_MUTANTS", "900"))
 
 
-def audit(prop, model, ctx):
-    from .mutants import run_audit
+# ----------------------------------------------------------------------------- mutation operators
+class Mutator(ast.NodeTransformer):
+    """applies exactly the k-th applicable mutation inside the selected function ranges"""
 
-    return run_audit(prop, model, ctx)
+    def __init__(self, ranges, target: int | None):
+        self.ranges = ranges  # list of (lo, hi) line ranges
+        self.target = target
+        self.count = 0
+        self.desc = None
+
+    def inside(self, node):
+        ln = getattr(node, "lineno", None)
+        return ln is not None and any(lo <= ln <= hi for lo, hi in self.ranges)
+
+    def hit(self, node, desc):
+        k = self.count
+        self.count += 1
+        if self.target is not None and k == self.target:
+            self.desc = f"line {getattr(node, 'lineno', '?')}: {desc}"
+            return True
+        return False
+
+    CMP = {ast.Lt: ast.LtE, ast.LtE: ast.Lt, ast.Gt: ast.GtE, ast.GtE: ast.Gt, ast.Eq: ast.NotEq, ast.NotEq: ast.Eq, ast.Is: ast.IsNot, ast.IsNot: ast.Is, ast.In: ast.NotIn, ast.NotIn: ast.In}
+    BIN = {ast.Add: ast.Sub, ast.Sub: ast.Add, ast.Mult: ast.Div, ast.Div: ast.Mult}
+
+    def visit_Compare(self, n):
+        self.generic_visit(n)
+        if not self.inside(n):
+            return n
+        for i, op in enumerate(n.ops):
+            new = self.CMP.get(type(op))
+            if new and self.hit(n, f"comparison {type(op).__name__} → {new.__name__} in `{ast.unparse(n)[:50]}`"):
+                n = copy.copy(n)
+                n.ops = list(n.ops)
+                n.ops[i] = new()
+                return n
+        # `x is None` → `not x`
+        if len(n.ops) == 1 and isinstance(n.ops[0], ast.Is) and isinstance(n.comparators[0], ast.Constant) and n.comparators[0].value is None:
+            if self.hit(n, f"identity test → truthiness in `{ast.unparse(n)[:50]}`"):
+                return ast.copy_location(ast.UnaryOp(op=ast.Not(), operand=n.left), n)
+        return n
+
+    def visit_BinOp(self, n):
+        self.generic_visit(n)
+        if not self.inside(n):
+            return n
+        new = self.BIN.get(type(n.op))
+        if new and self.hit(n, f"operator {type(n.op).__name__} → {new.__name__} in `{ast.unparse(n)[:50]}`"):
+            return ast.copy_location(ast.BinOp(left=n.left, op=new(), right=n.right), n)
+        if isinstance(n.op, (ast.Add, ast.Sub, ast.Mult, ast.Div)) and self.hit(n, f"operands swapped in `{ast.unparse(n)[:50]}`"):
+            return ast.copy_location(ast.BinOp(left=n.right, op=n.op, right=n.left), n)
+        return n
+
+    def visit_AugAssign(self, n):
+        self.generic_visit(n)
+        if self.inside(n) and self.hit(n, f"`{ast.unparse(n)[:50]}` → plain assignment"):
+            return ast.copy_location(ast.Assign(targets=[n.target], value=n.value, lineno=n.lineno), n)
+        return n
+
+    def visit_Constant(self, n):
+        if self.inside(n) and isinstance(n.value, (int, float)) and not isinstance(n.value, bool):
+            if self.hit(n, f"constant {n.value!r} → {n.value + 1!r}"):
+                return ast.copy_location(ast.Constant(value=n.value + 1), n)
+        if self.inside(n) and isinstance(n.value, bool):
+            if self.hit(n, f"constant {n.value!r} → {not n.value!r}"):
+                return ast.copy_location(ast.Constant(value=not n.value), n)
+        return n
+
+    def visit_Call(self, n):
+        self.generic_visit(n)
+        if not self.inside(n):
+            return n
+        for i, kw in enumerate(n.keywords):
+            if kw.arg is not None and self.hit(n, f"keyword `{kw.arg}=` dropped from `{ast.unparse(n)[:50]}`"):
+                m = copy.copy(n)
+                m.keywords = [k for j, k in enumerate(n.keywords) if j != i]
+                return m
+        if len(n.args) >= 2 and not any(isinstance(a, ast.Starred) for a in n.args[:2]) and self.hit(n, f"first two arguments swapped in `{ast.unparse(n)[:50]}`"):
+            m = copy.copy(n)
+            m.args = [n.args[1], n.args[0]] + list(n.args[2:])
+            return m
+        return n
+
+    def _body(self, body):
+        out = []
+        for s in body:
+            if self.inside(s) and isinstance(s, (ast.Expr, ast.Assign, ast.AugAssign, ast.AnnAssign)) and not (isinstance(s, ast.Expr) and isinstance(s.value, ast.Constant)):
+                if self.hit(s, f"statement `{ast.unparse(s)[:50]}` deleted"):
+                    out.append(ast.copy_location(ast.Pass(), s))
+                    continue
+            out.append(self.visit(s))
+        return out
+
+    def generic_visit(self, node):
+        for fld in ("body", "orelse", "finalbody"):
+            b = getattr(node, fld, None)
+            if isinstance(b, list) and b and isinstance(b[0], ast.stmt):
+                setattr(node, fld, self._body(b))
+        for h in getattr(node, "handlers", []) or []:
+            h.body = self._body(h.body)
+        for fld, val in ast.iter_fields(node):
+            if fld in ("body", "orelse", "finalbody", "handlers") and isinstance(val, list) and val and isinstance(val[0], (ast.stmt, ast.ExceptHandler)):
+                continue
+            if isinstance(val, list):
+                new = []
+                for v in val:
+                    if isinstance(v, ast.AST):
+                        v = self.visit(v)
+                        if v is None:
+                            continue
+                    new.append(v)
+                val[:] = new
+            elif isinstance(val, ast.AST):
+                nv = self.visit(val)
+                if nv is None:
+                    delattr(node, fld)
+                else:
+                    setattr(node, fld, nv)
+        return node
+
+
+def function_ranges(model: Model, quals):
+    by_file: dict = {}
+    for q in quals:
+        for fi in model.functions.get(q, []):
+            n = fi.node
+            lo, hi = getattr(n, "lineno", None), getattr(n, "end_lineno", None)
+            if lo and hi:
+                by_file.setdefault(fi.file, []).append((lo, hi))
+    return by_file
+
+
+def count_mutants(src, ranges):
+    mu = Mutator(ranges, None)
+    mu.visit(ast.parse(src))
+    return mu.count
+
+
+def make_mutant(src, ranges, k):
+    mu = Mutator(ranges, k)
+    tree = mu.visit(ast.parse(src))
+    ast.fix_missing_locations(tree)
+    try:
+        new_src = ast.unparse(tree)
+        ast.parse(new_src)
+    except Exception:
+        return None, mu.desc
+    return new_src, mu.desc
+
+
+# ----------------------------------------------------------------------------- running
+def _run_chunk(args):
+    root, prop, jobs = args
+    from .__main__ import run_property
+    from . import astutil
+
+    base = Model.from_dir(root)
+    sources = {m.path: m.source for m in base.modules.values()}
+    out = []
+    for path, ranges, k in jobs:
+        new_src, desc = make_mutant(sources[path], ranges, k)
+        if new_src is None or new_src == ast.unparse(ast.parse(sources[path])):
+            out.append((path, k, desc, "invalid"))
+            continue
+        astutil._VIEWS.clear()
+        try:
+            mm = base.with_source(path, new_src)
+            c2 = run_property(prop, mm, "quick")
+            out.append((path, k, desc, "killed" if c2.violations() else "survived"))
+        except AnalysisError:
+            out.append((path, k, desc, "analysis-error"))
+        except Exception as exc:  # a crash of the analyser on a mutant is recorded, never raised
+            out.append((path, k, desc, f"crash:{type(exc).__name__}"))
+    return out
+
+
+def seeded_for(prop):
+    out = []
+    for d in sorted(glob.glob(os.path.join(VERIF, "seeded", "*"))):
+        mp = os.path.join(d, "meta.json")
+        if not os.path.exists(mp) or not os.path.exists(os.path.join(d, "patch.diff")):
+            continue
+        try:
+            meta = json.load(open(mp))
+        except Exception:
+            continue
+        if meta.get("property") == prop or prop in meta.get("also_properties", []) or prop in meta.get("caught_by", []):
+            out.append((d, meta))
+    return out
+
+
+def apply_patch_in_memory(model: Model, patch_path: str):
+    """{path: new source} or None when the patch does not apply"""
+    tmp = tempfile.mkdtemp(prefix="dropstat_live_")
+    try:
+        for m in model.modules.values():
+            p = os.path.join(tmp, m.path)
+            os.makedirs(os.path.dirname(p), exist_ok=True)
+            with open(p, "w", encoding="utf-8") as fh:
+                fh.write(m.source)
+        r = subprocess.run(["patch", "-p1", "-s", "-f", "--no-backup-if-mismatch", "-i", patch_path], cwd=tmp, capture_output=True, text=True)
+        if r.returncode != 0:
+            return None
+        out = {}
+        for m in model.modules.values():
+            with open(os.path.join(tmp, m.path), encoding="utf-8") as fh:
+                out[m.path] = fh.read()
+        return out
+    finally:
+        import shutil
+
+        shutil.rmtree(tmp, ignore_errors=True)
+
+
+def audit(prop, model: Model, ctx):
+    from .__main__ import run_property
+    from .core import known_match, load_known_findings
+    from . import astutil
+
+    res = {"seeded": {"caught": [], "missed": [], "skipped": []}, "dead": []}
+    known = load_known_findings()
+    # 1. seeded variants
+    for d, meta in seeded_for(prop):
+        name = os.path.basename(d)
+        srcs = apply_patch_in_memory(model, os.path.join(d, "patch.diff"))
+        if srcs is None:
+            res["seeded"]["skipped"].append(name)
+            continue
+        astutil._VIEWS.clear()
+        try:
+            mm = Model(srcs, root=model.root)
+            c2 = run_property(prop, mm, "quick")
+            new = [f for f in c2.violations() if known_match(prop, f, known) is None]
+            if new:
+                res["seeded"]["caught"].append({"variant": name, "rule": new[0].rule, "site": new[0].site})
+            elif meta.get("property") == prop:
+                res["seeded"]["missed"].append(name)
+                res["dead"].append(f"seeded variant {name} is not reported")
+        except AnalysisError as exc:
+            if meta.get("property") == prop:
+                res["seeded"]["missed"].append(name)
+                res["dead"].append(f"seeded variant {name}: analysis error instead of a violation: {exc}")
+    astutil._VIEWS.clear()
+    # 2. mutation adequacy
+    by_file = function_ranges(model, sorted(ctx.functions))
+    jobs = []
+    for path, ranges in sorted(by_file.items()):
+        mod = [m for m in model.modules.values() if m.path == path]
+        if not mod:
+            continue
+        n = count_mutants(mod[0].source, ranges)
+        jobs += [(path, ranges, k) for k in range(n)]
+    total = len(jobs)
+    if total > MAX_MUTANTS:
+        step = total / MAX_MUTANTS
+        jobs = [jobs[int(i * step)] for i in range(MAX_MUTANTS)]
+    nproc = min(16, max(1, os.cpu_count() or 1))
+    chunks = [jobs[i::nproc] for i in range(nproc) if jobs[i::nproc]]
+    results = []
+    if chunks:
+        with ProcessPoolExecutor(len(chunks)) as ex:
+            for part in ex.map(_run_chunk, [(model.root, prop, c) for c in chunks]):
+                results += part
+    tally: dict = {}
+    for _, _, _, st in results:
+        tally[st.split(":")[0]] = tally.get(st.split(":")[0], 0) + 1
+    survivors = [f"{p}: {d}" for p, k, d, st in results if st == "survived"]
+    res["mutants"] = {
+        "applicable": total, "evaluated": len(results), "killed": tally.get("killed", 0), "analysis_error": tally.get("analysis-error", 0),
+        "survived": tally.get("survived", 0), "invalid": tally.get("invalid", 0), "crash": tally.get("crash", 0),
+        "kill_ratio": round((tally.get("killed", 0) + tally.get("analysis-error", 0)) / max(1, len(results) - tally.get("invalid", 0)), 3),
+        "survivor_samples": survivors[:40],
+        "functions": sorted(ctx.functions),
+    }
+    return res
